@@ -132,6 +132,14 @@ def step (xs : List α) (op : Op α) (refusal : Option Stat := none) : Out α ×
   | .reduce fn r0 => let r := reduce fn xs r0; ({ val := some r.2, cb := r.1 }, xs)
   | .sort sortFn => ({}, sortFn xs)
 
+/-- a history: one refusal input per call -/
+def run (xs : List α) : List (Op α) → List (Option Stat) → List (Out α) × List α
+  | [], _ => ([], xs)
+  | op :: ops, rs =>
+    let r := step xs op (rs.headD none)
+    let t := run r.2 ops rs.tail
+    (r.1 :: t.1, t.2)
+
 /-! ## ideal cursor: `done` = elements before the cursor (the last one is the element yielded
 last, unless it was removed), `todo` = elements not yet visited.  The list is `done ++ todo`. -/
 structure Cursor (α : Type) where
